@@ -582,8 +582,13 @@ def header_text(pf, extra_ratio=0):
         level = pf.levels[lv]
         out.append(f"{lv} {len(level.boxes)} {fnum(pf.time)}\n")
         out.append(f"{pf.step}\n")
-        for lo, hi in level.boxes:
-            for a, b in box_bounds(pf, lv, lo, hi):
+        nudge = getattr(pf, 'bound_nudge', {})
+        for bi, (lo, hi) in enumerate(level.boxes):
+            for d, (a, b) in enumerate(box_bounds(pf, lv, lo, hi)):
+                # (printed bounds one unit in the last place off, as low + index * dx computed in floating point can be)
+                na, nb = nudge.get((lv, bi, d), (0, 0))
+                a = float(np.nextafter(a, np.inf if na > 0 else -np.inf)) if na else a
+                b = float(np.nextafter(b, np.inf if nb > 0 else -np.inf)) if nb else b
                 out.append(f"{fnum(a)} {fnum(b)}\n")
         out.append(f"Level_{lv}/Cell\n")
     return ''.join(out)
